@@ -5,6 +5,7 @@ package main
 // accessors are uninterpreted functions of the local seconds, constrained to their ranges.
 
 import (
+	"fmt"
 	"go/types"
 )
 
@@ -29,7 +30,7 @@ func (e *Eng) tzOffset() *Term {
 	p := e.path
 	if p.tzOff == nil {
 		h := e.symScalar("tz.hours", 64)
-		e.Assume(e.tb.And(e.tb.Sle(e.tb.I64(-14), h), e.tb.Sle(h, e.tb.I64(14))))
+		e.Assume(e.tb.And(e.tb.Sle(e.tb.I64(-12), h), e.tb.Sle(h, e.tb.I64(14))))
 		p.tzOff = e.tb.Mul(h, e.tb.I64(3600))
 	}
 	return p.tzOff
@@ -59,8 +60,9 @@ func init() {
 		p := e.path
 		if p.now == nil {
 			p.now = e.symScalar("now.unix", 64)
-			// 2001..2099, and internal seconds are counted from year 1
-			e.Assume(e.tb.And(e.tb.Sle(e.tb.I64(978307200), p.now), e.tb.Sle(p.now, e.tb.I64(4102444800))))
+			// the clock is assumed to lie in 2001..2049 (UTCTime cannot represent 2050 and later:
+			// the library's attribute encoder panics then; outside the claim)
+			e.Assume(e.tb.And(e.tb.Sle(e.tb.I64(978307200), p.now), e.tb.Slt(p.now, e.tb.I64(2524608000))))
 		}
 		const unixToInternal = (1969*365 + 1969/4 - 1969/100 + 1969/400) * 86400
 		return Struct{e.tb.Const(64, 0), e.tb.Add(p.now, e.tb.I64(unixToInternal)), e.localLoc()}
@@ -73,7 +75,7 @@ func init() {
 		s := a[0].(Struct)
 		return Struct{s[0], s[1], fr.e.localLoc()}
 	})
-	reg("(time.Time).Year", func(fr *frame, a []Value) Value { return fr.e.calendar("year", a[0], 1970, 9999) })
+	reg("(time.Time).Year", func(fr *frame, a []Value) Value { return fr.e.calendar("year", a[0], 1950, 2049) })
 	reg("(time.Time).Month", func(fr *frame, a []Value) Value { return fr.e.calendar("month", a[0], 1, 12) })
 	reg("(time.Time).Day", func(fr *frame, a []Value) Value { return fr.e.calendar("day", a[0], 1, 31) })
 	reg("(time.Time).Hour", func(fr *frame, a []Value) Value { return fr.e.calendar("hour", a[0], 0, 23) })
@@ -82,10 +84,182 @@ func init() {
 	reg("(time.Time).Nanosecond", func(fr *frame, a []Value) Value { return fr.e.tb.I64(0) })
 	reg("(time.Time).Date", func(fr *frame, a []Value) Value {
 		e := fr.e
-		return Tuple{e.calendar("year", a[0], 1970, 9999), e.calendar("month", a[0], 1, 12), e.calendar("day", a[0], 1, 31)}
+		return Tuple{e.calendar("year", a[0], 1950, 2049), e.calendar("month", a[0], 1, 12), e.calendar("day", a[0], 1, 31)}
 	})
 	reg("(time.Time).Clock", func(fr *frame, a []Value) Value {
 		e := fr.e
 		return Tuple{e.calendar("hour", a[0], 0, 23), e.calendar("minute", a[0], 0, 59), e.calendar("second", a[0], 0, 59)}
 	})
+}
+
+// ---- UTCTime rendering and parsing ----
+
+func (e *Eng) twoDigits(v *Term) []*Term {
+	tb := e.tb
+	b := tb.Extract(v, 7, 0)
+	ten := tb.Const(8, 10)
+	return []*Term{tb.Add(tb.Bin(OpUDiv, b, ten), tb.Const(8, '0')), tb.Add(tb.Bin(OpURem, b, ten), tb.Const(8, '0'))}
+}
+
+func isNilLoc(loc Value) bool {
+	if _, ok := loc.(NilPtr); ok {
+		return true
+	}
+	p, ok := loc.(*Value)
+	return ok && p == nil
+}
+
+func init() {
+	reg := func(name string, f intrinsic) { intrinsics[name] = f }
+	reg("(time.Time).Format", func(fr *frame, a []Value) Value {
+		e := fr.e
+		tb := e.tb
+		layout, ok := a[1].(string)
+		if !ok || (layout != "060102150405Z0700" && layout != "0601021504Z0700") {
+			e.unsupported("time.Format layout %v", a[1])
+		}
+		withSec := layout == "060102150405Z0700"
+		_, ext, loc := e.timeFields(a[0])
+		if pt, ok := e.path.parsedTimes[ext.ID]; ok && isNilLoc(loc) {
+			if withSec == pt.withSec {
+				return e.strVal(e.termsSlice(pt.bytes, "utctime"))
+			}
+		}
+		t := a[0]
+		year := tb.Extract(e.calendar("year", t, 1950, 2049), 15, 0)
+		if _, _, l := e.timeFields(t); true {
+			_ = l
+		}
+		yy := tb.ZExt(tb.Bin(OpURem, year, tb.Const(16, 100)), 64)
+		var out []*Term
+		out = append(out, e.twoDigits(yy)...)
+		out = append(out, e.twoDigits(e.calendar("month", t, 1, 12))...)
+		out = append(out, e.twoDigits(e.calendar("day", t, 1, 31))...)
+		out = append(out, e.twoDigits(e.calendar("hour", t, 0, 23))...)
+		out = append(out, e.twoDigits(e.calendar("minute", t, 0, 59))...)
+		if withSec {
+			out = append(out, e.twoDigits(e.calendar("second", t, 0, 59))...)
+		}
+		if isNilLoc(loc) || e.Decide(tb.Eq(e.tzOffset(), tb.I64(0))) {
+			out = append(out, tb.Const(8, 'Z'))
+		} else {
+			off := e.tzOffset()
+			h := tb.Bin(OpSDiv, off, tb.I64(3600))
+			if e.Decide(tb.Slt(off, tb.I64(0))) {
+				out = append(out, tb.Const(8, '-'))
+				h = tb.Neg(h)
+			} else {
+				out = append(out, tb.Const(8, '+'))
+			}
+			out = append(out, e.twoDigits(h)...)
+			out = append(out, tb.Const(8, '0'), tb.Const(8, '0'))
+		}
+		return e.strVal(e.termsSlice(out, "utctime"))
+	})
+	reg("(*golang.org/x/crypto/cryptobyte.String).ReadASN1UTCTime", func(fr *frame, a []Value) Value {
+		e := fr.e
+		tb := e.tb
+		// read the element with the real reader
+		cbT := e.namedType("golang.org/x/crypto/cryptobyte", "String")
+		var bytesV Value = e.nilSlice()
+		rd := e.lookupMethod(types.NewPointer(cbT), "ReadASN1")
+		ok := e.callSSA(fr, fr.callPos, rd, []Value{a[0], &bytesV, tb.Const(8, 23)}, nil).(*Term)
+		if !e.Decide(ok) {
+			return tb.F
+		}
+		b := bytesV.(SliceVal)
+		if !b.Len.IsConst() {
+			b.Len = tb.Const(64, e.concretize(b.Len, 64))
+		}
+		n := int(b.Len.C)
+		if n != 13 && n != 11 {
+			return tb.F
+		}
+		bs := e.viewBytes(b, n)
+		num := func(i int) *Term { // two digits at i as an 8-bit number
+			return tb.Add(tb.Mul(tb.Sub(bs[i], tb.Const(8, '0')), tb.Const(8, 10)), tb.Sub(bs[i+1], tb.Const(8, '0')))
+		}
+		var conds []*Term
+		for i := 0; i < n-1; i++ {
+			conds = append(conds, tb.Ule(tb.Const(8, '0'), bs[i]), tb.Ule(bs[i], tb.Const(8, '9')))
+		}
+		conds = append(conds, tb.Eq(bs[n-1], tb.Const(8, 'Z')))
+		yy, mo, dd, hh, mi := num(0), num(2), num(4), num(6), num(8)
+		c8 := func(v uint64) *Term { return tb.Const(8, v) }
+		conds = append(conds, tb.Ule(c8(1), mo), tb.Ule(mo, c8(12)), tb.Ule(c8(1), dd), tb.Ule(hh, c8(23)), tb.Ule(mi, c8(59)))
+		if n == 13 {
+			conds = append(conds, tb.Ule(num(10), c8(59)))
+		}
+		// days in month (two-digit years 50..99 are 19xx, 00..49 are 20xx: leap iff yy % 4 == 0, 2000 included)
+		leap := tb.Eq(tb.Bin(OpAnd, yy, c8(3)), c8(0))
+		is := func(m uint64) *Term { return tb.Eq(mo, c8(m)) }
+		dim := tb.Ite(is(2), tb.Ite(leap, c8(29), c8(28)), tb.Ite(tb.Or(is(4), is(6), is(9), is(11)), c8(30), c8(31)))
+		conds = append(conds, tb.Ule(dd, dim))
+		if !e.Decide(tb.And(conds...)) {
+			return tb.F
+		}
+		p := e.path
+		p.uniq++
+		ext := e.tb.Var(fmt.Sprintf("utctime!%d", p.uniq), 64)
+		e.assertPC(tb.Slt(tb.I64(0), ext))
+		if p.parsedTimes == nil {
+			p.parsedTimes = map[int]parsedTime{}
+		}
+		p.parsedTimes[ext.ID] = parsedTime{bytes: bs, withSec: n == 13}
+		var tv Value = Struct{tb.Const(64, 0), ext, NilPtr{}}
+		// calendar accessors of this value agree with the text
+		year := tb.Add(tb.ZExt(yy, 64), tb.Ite(tb.Ult(yy, c8(50)), tb.I64(2000), tb.I64(1900)))
+		e.assertPC(tb.Eq(e.calendar("year", tv, 1950, 2049), year))
+		e.store(nil, a[1], tv, fr.callPos)
+		return tb.T
+	})
+	reg("(*golang.org/x/crypto/cryptobyte.String).ReadASN1Integer", func(fr *frame, a []Value) Value {
+		e := fr.e
+		tb := e.tb
+		out := a[1].(Iface)
+		if out.T == nil {
+			e.unsupported("ReadASN1Integer(nil)")
+		}
+		cbT := types.NewPointer(e.namedType("golang.org/x/crypto/cryptobyte", "String"))
+		pt, ok := out.T.(*types.Pointer)
+		if !ok {
+			e.unsupported("ReadASN1Integer into %v", out.T)
+		}
+		if nt, ok := pt.Elem().(*types.Named); ok && nt.Obj().Name() == "Int" && nt.Obj().Pkg().Path() == "math/big" {
+			return e.callSSA(fr, fr.callPos, e.lookupMethod(cbT, "readASN1BigInt"), []Value{a[0], out.V}, nil)
+		}
+		w, signed, isInt := intWidth(pt.Elem())
+		if !isInt || w == 0 {
+			e.unsupported("ReadASN1Integer into %v", out.T)
+		}
+		if signed {
+			var tmp Value = tb.I64(0)
+			okv := e.callSSA(fr, fr.callPos, e.lookupMethod(cbT, "readASN1Int64"), []Value{a[0], &tmp}, nil).(*Term)
+			if !e.Decide(okv) {
+				return tb.F
+			}
+			v := tmp.(*Term)
+			if w < 64 && !e.Decide(tb.Eq(tb.SExt(tb.Extract(v, w-1, 0), 64), v)) {
+				return tb.F
+			}
+			e.store(nil, out.V, tb.Resize(v, w, true), fr.callPos)
+			return tb.T
+		}
+		var tmp Value = tb.Const(64, 0)
+		okv := e.callSSA(fr, fr.callPos, e.lookupMethod(cbT, "readASN1Uint64"), []Value{a[0], &tmp}, nil).(*Term)
+		if !e.Decide(okv) {
+			return tb.F
+		}
+		v := tmp.(*Term)
+		if w < 64 && !e.Decide(tb.Eq(tb.ZExt(tb.Extract(v, w-1, 0), 64), v)) {
+			return tb.F
+		}
+		e.store(nil, out.V, tb.Resize(v, w, false), fr.callPos)
+		return tb.T
+	})
+}
+
+type parsedTime struct {
+	bytes   []*Term
+	withSec bool
 }
